@@ -763,7 +763,9 @@ func (c *Ctx) c15StreamHeaders() {
 			tu, _ := r.Val.(*absint.Tuple)
 			add := func(what, got, want string) {
 				stt, d := report.Discharged, ""
-				if got != want {
+				// trimming and the []byte→string conversion commute: strings.Trim(string(b), c) == string(bytes.Trim(b, c))
+				canon := func(x string) string { return strings.ReplaceAll(x, "Trim(str(", "str(Trim(") }
+				if canon(got) != canon(want) {
 					stt, d = report.Violated, fmt.Sprintf("%s is %s; the standard's layout gives %s", what, got, want)
 				}
 				R.Add("E3.stream-header", tn+" / "+what, c.P.RelPos(parse.Pos()), stt, d)
